@@ -469,10 +469,15 @@ def s_model_call(v):
     m = models[v % len(models)]
     k = v // len(models)
     x, p = _peak_params(m, ['angstrom', 'dimensionless'][k % 2], ['counts', 'dimensionless'][k % 2], [F64, F32][(k // 2) % 2])
+    shape = (k // 4) % 3  # round 6: the abscissa as an array, as a 0-d scalar (same sizes as the scalar parameters) and as a length-1 array
+    if shape == 1:
+        x = x['x', 17].copy()
+    elif shape == 2:
+        x = x['x', 17:18].copy()
     return (lambda self, x, params: self(x, **params)), {'self': m, 'x': x, 'params': p}, f'{type(m).__name__}/{k}'
 
 
-s_model_call.n = 20
+s_model_call.n = 60
 
 
 def _spectrum(v, variances=True):
